@@ -28,12 +28,16 @@ to back from `first` to `lastInBuffer`, `low` back to back from offset 0 below `
                               exactly its stored id and octets, marks it sent-unconfirmed, touches nothing else
 * `state_change_is_local`     a state change at one offset changes that entry's state and nothing else
 
-plus the entry-level laws below.  NOT proved: the ring laws of markAsduAsConfirmed / removeFirstEntry and
-of the reset loop (setWaitingForTransmissionWhenNotConfirmed), N-retention, and the coupling with the
-k-buffer; those rest on the correspondence run (real ring - pointers, every entry's id / state / size in
+* `confirm_marks_or_removes`   markAsduAsConfirmed for a reference that designates a queued entry: the entry becomes
+                              confirmed, leaves the queue if it is the oldest one, nothing else changes
+* `rearm_after_connection_loss`  setWaitingForTransmissionWhenNotConfirmed terminates and turns exactly the
+                              sent-but-unconfirmed entries back into waiting ones; `confirmed_stays_confirmed`
+
+plus the entry-level laws below.  NOT proved: N-retention, validity of stale references in markAsduAsConfirmed
+(the id window), and the coupling with the k-buffer; those rest on the correspondence run (real ring - pointers, every entry's id / state / size in
 FIFO order - compared with the model after every operation, queue sizes 1..40) and the duplicate / order
 oracle of the harness.  The invariant is established by `MsgQueue.create` and re-established by the three
-operations above; its preservation by the unproved operations is tied differentially.
+operations above and by confirm / re-arm; the server-level composition is tied differentially.
 -/
 namespace Iec.Props.C06
 open Iec.Queues
@@ -175,6 +179,34 @@ theorem state_change_is_local (q : MsgQueue) (up low : List MEntry) (h : MqInv q
   intro x _
   simp only [Function.comp, updSt]
   split <;> rfl
+
+/-- **C06, acknowledged entries.** A confirmation that designates a queued entry (offset and id as stored in the
+k-buffer, id inside the window) marks it confirmed; if it is the oldest entry it is removed; every other entry
+keeps id, state, octets and position in the order. -/
+theorem confirm_marks_or_removes (q : MsgQueue) (up low : List MEntry) (h : MqInv q up low) (x : MEntry)
+    (hx : x ∈ up ++ low) (hwin : x.2.id + 1 ≤ q.nextId ∧ q.nextId - 1 - x.2.id < q.count) :
+    ∃ up' low', MqInv (q.markConfirmed x.1 x.2.id) up' low' ∧
+      MqInv.abs up' low' =
+        (if (up ++ low).head? = some x then (MqInv.abs (up.map (updSt x.1 0)) (low.map (updSt x.1 0))).tail
+         else MqInv.abs (up.map (updSt x.1 0)) (low.map (updSt x.1 0))) :=
+  markConfirmed_refines q up low h x hx hwin
+
+/-- **C06, resent after the connection ends.** The reset loop terminates and maps every entry `e` to `rearmE e`:
+sent-but-unconfirmed becomes waiting, everything else (in particular confirmed) stays as it is. -/
+theorem rearm_after_connection_loss (q : MsgQueue) (up low : List MEntry) (h : MqInv q up low) :
+    MqInv q.setWaitingWhenNotConfirmed (up.map rearm) (low.map rearm) ∧
+    q.setWaitingWhenNotConfirmed.toList = q.toList.map rearmE := by
+  have h' := setWaiting_refines q up low h
+  refine ⟨h', ?_⟩
+  rw [toList_eq _ _ _ h', toList_eq q up low h]
+  simp only [MqInv.abs, List.map_append, List.map_map]
+  rfl
+
+/-- acknowledged ASDUs are never transmitted again: re-arming never turns a confirmed (or a waiting) entry
+into anything else, and never changes ids or octets -/
+theorem confirmed_stays_confirmed (e : QEntry) : (e.st ≠ 2 → rearmE e = e) ∧ (rearmE e).id = e.id ∧ (rearmE e).data = e.data := by
+  unfold rearmE
+  refine ⟨fun h => by simp [h], ?_, ?_⟩ <;> split <;> rfl
 
 /-- the invariant holds for a freshly created queue -/
 theorem create_inv (n : Nat) : MqInv (MsgQueue.create n) [] [] :=
